@@ -210,6 +210,9 @@ CLAIMED = {
               "distribution for rotated moments for every exact linear solver with nonsingular Jacobians (J(R lambda) = R J(lambda) "
               "R^T entry by entry, R orthogonal, hence an exact Newton step is equivariant); the same for the mirror image "
               "(b1, b2 -> -b1, -b2 gives D(-theta)) for MEM, the approximate variant and Newton with an exact solver. "
+              "solve_cholesky (Cholesky-Banachiewicz, forward and back substitution, as coded) is proved exact on every symmetric "
+              "4x4 system on which it returns a vector, hence the step the iteration takes is the exact Newton step J x = g whenever "
+              "the factorisation succeeds (that it succeeds, i.e. that J is positive definite, is not proved). "
               "Correspondence as C05; fidelity of Newton / scipy / MEM on "
               "von-Mises mixtures with spread >= 1.5 bins (N in 24,36,72,144), Newton-vs-scipy agreement, rotation by every k "
               "and mirror equivariance of all four variants, finite-difference Jacobian, on the implementation."),
@@ -222,10 +225,13 @@ CLAIMED = {
               "E = 0, = 0 where cos(theta - theta_w) <= 0, and linear in E at fixed roughness, for the kernel and for the whole "
               "field; ST4 saturation and cumulative terms and ST6 inherent + cumulative terms are <= 0 and = 0 where E = 0 "
               "(strength integral >= 0, exceedances >= 0); the bulk rate is the double sum with the spectrum's own bin widths and "
-              "has the sign of the field. Correspondence: Float model against gen.rate / bulk_rate at fixed roughness and "
+              "has the sign of the field. Whole-field statements: st4Dissipation and st6Dissipation of the model are <= 0 in every "
+              "entry for a non-negative spectrum; entry (i, j) of the wind input, of the ST4 and of the ST6 dissipation is zero "
+              "wherever entry (i, j) of the spectrum is (positional support), so an empty spectrum gives identically zero fields. "
+              "Correspondence: Float model against gen.rate / bulk_rate at fixed roughness and "
               "dis.rate / bulk_rate / mean direction (ST4, ST6, 5+5+3 parameter sets, u10 and u* input, deep / finite depth); "
-              "sign, support, proportionality, bulk = integral, batch = single, imbalance identities and Romero sign as "
-              "oracles on the code."),
+              "sign, support, proportionality, bulk = integral, batch = single, independence of the term object's history "
+              "(another grid of the same shape evaluated first), imbalance identities and Romero sign as oracles on the code."),
         design="6/C08, 11.3", technique="Lean 4 proof at ℝ (sign / support / linearity of every kernel and field) + Float-model correspondence + implementation oracles",
         note=PROOF_NOTE + " Romero is checked by oracle only (not modelled). The imbalance identities are definitional in the model and tied by the oracle."),
     "C09": dict(
@@ -239,16 +245,25 @@ CLAIMED = {
               "invariant and its direction shifts by k*360/N mod 360 (negates under mirroring); a solver applied to a "
               "pointwise equal balance function returns the same value. Oracles on the code: fields shift by k bins "
               "(1e-9), angles shift mod 360, bulk rates / stress magnitude / roughness / estimated U10 unchanged, for "
-              "N in 16, 24, 36, all k (thorough) and the mirror image; stress correspondence with the Float model."),
+              "N in 16, 24, 36, all k (thorough) and the mirror image; stress correspondence with the Float model. "
+              "Whole-field theorems for the list model on a uniform grid (every N, k, frequency grid, kinematics table and parameter "
+              "set; mirror image for grids starting at 0): the model's st4Input, st6Dissipation and st4Dissipation (band saturation, "
+              "isotropic maximum, cumulative term with its cut-off over longer waves) of the rotated / mirrored input are the rotated / "
+              "mirrored fields; resolved stress, WAM tail stress (same failure) and viscous stress rotate / reflect as vectors, so the "
+              "total stress magnitude, the stress-balance function of log z0, the roughness returned by the Newton-Raphson model "
+              "(or its failure), every bulk rate, the balance function of the wind inversion (roughness solved anew at every U10, "
+              "rate of change in the active region) and the estimated U10 are unchanged, and the dissipation-weighted wavenumber "
+              "vector rotates / reflects. Direction-iterated inversions are exercised on the code only (veering seas, rotated and mirrored)."),
         design="6/C09, 11.3", technique="Lean 4 proof at ℝ (re-indexing over Fin N, periodicity, convolution commutes with rotation, vector rotation) + rotation/mirror oracles on the implementation",
-        note=PROOF_NOTE + " The theorems are about the per-row kernels as functions of the bin index (bridge lemma to the list model for the input row); that whole float solver runs are bit-identical under rotation is not claimed (oracle tolerance 1e-5 / 0.03 m/s)."),
+        note=PROOF_NOTE + " The theorems are exact-arithmetic statements about the list model's whole fields and about the per-row kernels; that whole float solver runs are bit-identical under rotation is not claimed (oracle tolerance 1e-5 / 0.03 m/s; 0.1 m/s and 1.5 degrees with direction iteration, which is not in the Lean model)."),
     "C10": dict(
         text=("Lean 4 theorems at ℝ over branch-by-branch models of fixed_point_iteration and numba_newton_raphson: a missing "
               "(NaN) wind speed gives a missing roughness element by element; drag = (kappa/ln(elev/z0))^2; the Charnock map is "
               "alpha u*^2/g + c nu/u* with u* = kappa U/ln(elev/z); invariant of the Newton/secant/bisection hybrid over all "
               "reachable states (recorded bracket values are f at the bracket ends, bracket ordered, iterate inside once "
               "bracketed, end values of opposite sign) and its consequence: every value returned through the convergence "
-              "test has a last step below atol / rtol and, if bracketed, lies in a bracket with a sign change, which for a "
+              "test has a last step below atol / rtol, was reached by a regular (Newton, secant or bisection) step and not by an Aitken "
+              "extrapolation, and, if bracketed, lies in a bracket with a sign change, which for a "
               "continuous balance contains an exact root (IVT); a returned wave-dependent roughness is exp of such a value, "
               "hence positive, or missing; without the viscous term exact Charnock solutions in (0, elev/e^2) are ordered like their "
               "wind speeds (z ln^2(elev/z) strictly increasing there) and the drag coefficient increases with the roughness. "
@@ -262,13 +277,17 @@ CLAIMED = {
         text=("Lean 4 theorems at ℝ: U10 = 0 when the integrated dissipation is 0; without direction iteration the direction "
               "handed in is returned; with hard bounds (0, inf) and a non-negative guess no iterate is negative, so the "
               "estimate is missing or >= 0; a returned estimate carries the solver certificate for the balance function "
-              "(last step < 0.01 m/s; if bracketed, inside a bracket with a sign change of the balance); the rate-of-change "
+              "(last step < 0.01 m/s; if bracketed, inside a bracket with a sign change of the balance) and was reached by a "
+              "regular step (under-relaxed Newton / secant update or bisection, never an Aitken extrapolation: for an unclipped "
+              "Newton / secant step of slope d the balance at the previous iterate is exactly -d (u - prev) / 0.9); the rate-of-change "
               "term only counts bins with positive generation. Oracles on the code: balance (bulk input + bulk dissipation - "
-              "active rate of change) changes sign within +-0.03 m/s of the returned U10, direction = dissipation-weighted "
+              "active rate of change) changes sign within +-0.1 m/s of the returned U10 (ten solver steps), direction = dissipation-weighted "
               "mean direction, finite result whenever a scan shows a root in [2, 40] m/s, zero for zero dissipation, "
-              "batch = single; correspondence of the balance function and of the whole inversion with the Float model."),
+              "batch = single, factory-built pair = pair built directly; with direction iteration (veering seas placed on the 0/360 seam): "
+              "finite, positive, balance closed within 0.3 m/s at the reported direction; past failures (corpus/) are replayed first; "
+              "correspondence of the balance function and of the whole inversion with the Float model."),
         design="6/C11, 11.3", technique="Lean 4 proof at ℝ (solver invariant, non-negativity, certificate) + Float-model correspondence + balance oracles",
-        note=PROOF_NOTE + " Existence / uniqueness of the root and convergence are sampled. Strict positivity is an oracle (the theorem gives >= 0). Direction iteration is not modelled."),
+        note=PROOF_NOTE + " Existence / uniqueness of the root and convergence are sampled. Strict positivity is an oracle (the theorem gives >= 0). Direction iteration is not in the Lean model (oracles on the code only). The convergence test of the model follows the repaired solver (fix 4274ea7: no convergence on an Aitken step)."),
 }
 
 NOT_YET = "check not built yet in this session; see DESIGN.md section 9 (build order)"
